@@ -1,0 +1,7 @@
+//go:build !verif
+
+package util
+
+// verifPoint is an instrumentation point of the verification framework; it is
+// active only with the build tag `verif` (see verif_on.go).
+func verifPoint(string, ...any) {}
